@@ -181,6 +181,7 @@ type rpcServerSide struct {
 	enter   atomic.Int64
 	exit    atomic.Int64
 	blockCh chan struct{} // optional: handlers of behaviour bLate wait on it (fault checks)
+	rereads atomic.Int64  // handlers that asked for the request a second time after streamed messages
 }
 
 func (s *rpcServerSide) count(id uint64) int32 {
@@ -267,7 +268,35 @@ func (s *rpcServerSide) handle(ctx rpc.Context, ch rpc.ServerChannel) (ref.R[[]b
 		}
 	case bClientStream:
 		total := 0
-		for i := 0; ; i++ {
+		first := 0
+		reread := c.id%4 == 1
+		if reread {
+			// poll while (most probably) nothing is queued yet; the request was valid "until the next
+			// call to Receive": from here on a second Request() must not hand out other bytes as a request
+			if b, ok, st := ch.ReceiveAsync(ctx); st.OK() && ok {
+				if !checkStreamMsg(c, 0, 0, b) {
+					s.fail("call %d: client-stream message 0 corrupted or out of order (%d bytes)", c.id, len(b))
+				}
+				total += len(b) - 13
+				first = 1
+			} else if st.OK() {
+				// the poll was empty: wait until the client's first message has arrived (it is written
+				// into the receive memory the request lived in) and ask for the request before reading it
+				select {
+				case <-ch.ReceiveWait():
+				case <-ctx.Wait():
+				case <-time.After(Watchdog):
+				}
+				if req2, st2 := ch.Request(ctx); st2.OK() {
+					calls2 := req2.Calls()
+					if calls2.Len() != 1 || string(calls2.Get(0).Method()) != fmt.Sprintf("m%d", c.behaviour) || calls2.Get(0).Input().Uint64(1) != c.id {
+						s.fail("call %d: a second Request() after an empty poll returned OK with something that is not this call's request (%d calls): recycled receive memory handed out as the request", c.id, calls2.Len())
+					}
+				}
+				s.rereads.Add(1)
+			}
+		}
+		for i := first; ; i++ {
 			b, st := ch.Receive(ctx)
 			if st.Code == status.CodeEnd {
 				break
@@ -279,6 +308,15 @@ func (s *rpcServerSide) handle(ctx rpc.Context, ch rpc.ServerChannel) (ref.R[[]b
 				s.fail("call %d: client-stream message %d corrupted or out of order (%d bytes)", c.id, i, len(b))
 			}
 			total += len(b) - 13
+			if reread && i == first {
+				if req2, st2 := ch.Request(ctx); st2.OK() {
+					calls2 := req2.Calls()
+					if calls2.Len() != 1 || string(calls2.Get(0).Method()) != fmt.Sprintf("m%d", c.behaviour) || calls2.Get(0).Input().Uint64(1) != c.id {
+						s.fail("call %d: a second Request() after streamed messages returned OK with something that is not this call's request (%d calls): recycled receive memory handed out as the request", c.id, calls2.Len())
+					}
+				}
+				s.rereads.Add(1)
+			}
 		}
 		if c.fail {
 			e := expect(c)
